@@ -23,6 +23,8 @@ SOURCES = {
         ("tensordict/_td.py", "TensorDict._multithread_apply_flat", "C12Pool.submitKids / submitTree"),
         ("tensordict/_td.py", "TensorDict._multithread_rebuild", "C12Pool.rebuildKids / rebuildTree / setMode"),
         ("tensordict/utils.py", "TensorDictFuture.result", "await-all of the return_early front-ends"),
+        ("tensordict/utils.py", "_proc_init", "C12Seed.workerSeeds (seed = base + worker id)"),
+        ("tensordict/base.py", "TensorDictBase.map", "C12Seed: ids 0..num_workers-1 put once each on the queue; own pool around _map"),
     ],
     "C11": [
         ("tensordict/_reductions.py", "_rebuild_tensordict_files_consolidated", "C11Consolidate.decodeLeaf / rebuildSnap / leavesFirst, C11Rebuild.rebuildLoop"),
@@ -46,6 +48,10 @@ SOURCES = {
         ("tensordict/memmap.py", "MemoryMappedTensor.from_filename", "C10Tensor.fromFilename"),
         ("tensordict/base.py", "TensorDictBase.load_memmap_", "C10Memmap.loadInto (+ trailing memmap_)"),
         ("tensordict/base.py", "TensorDictBase.memmap_refresh_", "C10Memmap.loadInto"),
+        ("tensordict/memmap.py", "MemoryMappedTensor.filename", "C10Nested.recordedNames (the setter: Path(value).absolute())"),
+        ("tensordict/tensorclass.py", "_memmap_", "C10MetaTask: the save_metadata task and the dict handed to _from_tensordict"),
+        ("tensordict/tensorclass.py", "_from_tensordict", "C10MetaTask.addMissing"),
+        ("tensordict/tensorclass.py", "NonTensorData._memmap_", "C10MetaTask.setMeta"),
     ],
 }
 
